@@ -274,7 +274,7 @@ func (h *Harness) Report(kind string, c any, f *Failure) bool {
 	}
 	h.mu.Lock()
 	defer h.mu.Unlock()
-	return h.viol < 5 // keep going a little so that independent root causes show up in one run
+	return h.viol < maxViol() // keep going a little so that independent root causes show up in one run
 }
 
 // Fail is called from inside a rapid property when the oracle rejects a case.
@@ -422,4 +422,13 @@ func TestReplay(t *testing.T) {
 		return
 	}
 	fmt.Printf("REPLAY-PASS property=%s replay=%s\n", r.Property, path)
+}
+
+func maxViol() int {
+	if s := os.Getenv("VERIF_MAXVIOL"); s != "" {
+		if n, err := strconv.Atoi(s); err == nil {
+			return n
+		}
+	}
+	return 5
 }
